@@ -146,7 +146,13 @@ impl<R: Read, W: Write, M: Matcher> FrameCompressor<R, W, M> {
             single_segment: false,
             content_checksum: cfg!(feature = "hash"),
             dictionary_id: None,
-            window_size: Some(self.state.matcher.window_size()),
+            // A block may hold up to 128 KiB and no block may be larger than the window
+            window_size: Some(
+                self.state
+                    .matcher
+                    .window_size()
+                    .max(crate::common::MAX_BLOCK_SIZE as u64),
+            ),
         };
         header.serialize(output);
         // Now compress block by block
